@@ -394,6 +394,16 @@ class IndexMonitor(Monitor):
         rr["index_bak"] = len(bak)
         if rr.get("inconclusive"):
             return
+        if pr.plan["runs"][rr["index"]].get("mode") == "generate":
+            # a generate-only run is not a plan: index and backup must be what the previous run left
+            prev = getattr(self, "snapshot", None)
+            eng.events.append(("generate-only-run", len(bak), eng.step))
+            if prev is not None and (jobs, bak) != prev:
+                what = "the backup index was dropped" if prev[1] and not bak else "the index changed"
+                V(eng, ["C16"], "index-changed-by-generate-only-run", f"run {rr['index']} (generate-only, left {rr.get('left')}): {what}: jobs {len(prev[0])} -> {len(jobs)}, backup {len(prev[1])} -> {len(bak)}")
+            self.snapshot = (jobs, bak)
+            return
+        self.snapshot = (jobs, bak)
         if rr.get("left") == "normal":
             if jobs != self.this_run:
                 extra = sorted(set(jobs) - set(self.this_run))
